@@ -220,6 +220,11 @@ impl Driver for ModuleIter {
             }
             c.class("skip_list_with_foreign_ids");
         }
+        // the order of a skip list carries no meaning
+        if skip.len() >= 2 && c.t.chance(1, 3) {
+            shuffle(&mut skip, &mut c.t);
+            c.class("skip_list_not_ascending");
+        }
         let partial = c.t.u16() as usize;
         c.note(|| format!("MODULE\n{}\nlocal functions {:?}, lengths {:?}\nSKIP {:?}", dm::print_wat(&bytes), locals, locals.iter().map(|f| d.funcs[*f as usize].ops.len()).collect::<Vec<_>>(), skip));
         let sset: BTreeSet<u32> = skip.iter().copied().collect();
@@ -248,5 +253,497 @@ impl Driver for ModuleIter {
             c.nontrivial(fnv(&bytes) ^ fnv(format!("{:?}", skip).as_bytes()));
         }
         Outcome::Pass
+    }
+}
+
+// ------------------------------------------------------------------------------------ C26
+use super::instr::{is_open, marker_payload, structure, IMode, Inj, Path};
+use std::collections::HashMap;
+use wirm::ir::id::ModuleID;
+use wirm::iterator::iterator_trait::IteratingInstrumenter;
+use wirm::opcode::{Inject, InjectAt, Instrumenter};
+
+pub type CVisit = (u32, u32, usize, String, bool);
+
+/// top-level core modules of a component binary, in order
+pub fn extract_modules(comp: &[u8]) -> Vec<Vec<u8>> {
+    let mut out = vec![];
+    let mut depth = 0usize;
+    for p in wasmparser::Parser::new(0).parse_all(comp) {
+        match p {
+            Ok(wasmparser::Payload::ModuleSection { unchecked_range, .. }) => {
+                if depth == 0 {
+                    if let Some(s) = comp.get(unchecked_range.start..unchecked_range.end) {
+                        out.push(s.to_vec());
+                    }
+                }
+                depth += 1;
+            }
+            Ok(wasmparser::Payload::ComponentSection { .. }) => depth += 1,
+            Ok(wasmparser::Payload::End(_)) => depth = depth.saturating_sub(1),
+            Ok(_) => {}
+            Err(_) => break,
+        }
+    }
+    out
+}
+
+fn loc_parts(loc: Location) -> (u32, u32, usize) {
+    match loc {
+        Location::Module { func_idx, instr_idx } => (0, *func_idx, instr_idx),
+        Location::Component { mod_idx, func_idx, instr_idx } => (*mod_idx, *func_idx, instr_idx),
+    }
+}
+fn loc_with_instr(loc: Location, instr_idx: usize) -> Location {
+    match loc {
+        Location::Module { func_idx, .. } => Location::Module { func_idx, instr_idx },
+        Location::Component { mod_idx, func_idx, .. } => Location::Component { mod_idx, func_idx, instr_idx },
+    }
+}
+
+fn apply_one<'a, I>(it: &mut I, inj: &Inj, here: Location)
+where
+    I: IteratingInstrumenter<'a> + Inject<'a> + InjectAt<'a> + Instrumenter<'a>,
+{
+    let at_current = matches!(inj.path, Path::IterCur | Path::CompCur);
+    match inj.mode {
+        IMode::FuncEntry => {
+            it.func_entry();
+            for o in &inj.payload {
+                it.inject(o.clone());
+            }
+        }
+        IMode::FuncExit => {
+            it.func_exit();
+            for o in &inj.payload {
+                it.inject(o.clone());
+            }
+        }
+        IMode::EmptyAlt => {
+            if at_current {
+                it.empty_alternate();
+            } else {
+                it.empty_alternate_at(loc_with_instr(here, inj.instr));
+            }
+        }
+        IMode::EmptyBlockAlt => {
+            if at_current {
+                it.empty_block_alt();
+            } else {
+                it.empty_block_alt_at(loc_with_instr(here, inj.instr));
+            }
+        }
+        m => {
+            if at_current {
+                match m {
+                    IMode::Before => it.before(),
+                    IMode::After => it.after(),
+                    IMode::Alt => it.alternate(),
+                    IMode::SemAfter => it.semantic_after(),
+                    IMode::BlockEntry => it.block_entry(),
+                    IMode::BlockExit => it.block_exit(),
+                    IMode::BlockAlt => it.block_alt(),
+                    _ => unreachable!(),
+                };
+                for o in &inj.payload {
+                    it.inject(o.clone());
+                }
+            } else {
+                for o in &inj.payload {
+                    it.inject_at(inj.instr, m.lib().unwrap(), o.clone());
+                }
+            }
+        }
+    }
+}
+
+/// One pass over everything the iterator visits; at every location the injections planned
+/// for it are issued (instruction-level ones first, function-level ones at the function's
+/// last instruction).  Returns the visit sequence and, per plan entry, whether the call was
+/// rejected (panicked).
+fn pass<'a, I>(it: &mut I, plan: &[(u32, Inj)], this_mod: Option<u32>, limit: usize) -> Result<(Vec<CVisit>, Vec<Option<String>>), String>
+where
+    I: wirm::iterator::iterator_trait::Iterator + IteratingInstrumenter<'a> + Inject<'a> + InjectAt<'a> + Instrumenter<'a>,
+{
+    let mut seq: Vec<CVisit> = vec![];
+    let mut rejected: Vec<Option<String>> = vec![None; plan.len()];
+    let mut applied = vec![false; plan.len()];
+    if it.curr_op().is_none() {
+        return Ok((seq, rejected));
+    }
+    loop {
+        let (loc, is_end) = it.curr_loc();
+        let (mi, f, i) = loc_parts(loc);
+        let mi = this_mod.unwrap_or(mi);
+        let op = match it.curr_op() {
+            Some(o) => format!("{:?}", o),
+            None => return Err(format!("curr_op() is None at visited location module {} func {} instr {}", mi, f, i)),
+        };
+        seq.push((mi, f, i, op, is_end));
+        if seq.len() > limit {
+            return Err(format!("iterator visited more than {} instructions", limit));
+        }
+        // instruction-level injections: at their location (current-location paths) or from
+        // the first instruction of their function (inject_at paths)
+        for phase in 0..2 {
+            for (k, (pm, inj)) in plan.iter().enumerate() {
+                if applied[k] || *pm != mi || inj.func != f {
+                    continue;
+                }
+                let at_current = matches!(inj.path, Path::IterCur | Path::CompCur);
+                let due = if inj.mode.is_func_level() {
+                    phase == 1 && is_end
+                } else if at_current {
+                    phase == 0 && inj.instr == i
+                } else {
+                    phase == 0 && i == 0
+                };
+                if !due {
+                    continue;
+                }
+                applied[k] = true;
+                let r = run_lib(|| apply_one(it, inj, loc));
+                rejected[k] = r.err().map(|p| p.msg);
+            }
+        }
+        let nxt = it.next().map(|o| format!("{:?}", o));
+        match nxt {
+            None => break,
+            Some(o) => {
+                let cur = it.curr_op().map(|o| format!("{:?}", o));
+                if cur.as_deref() != Some(o.as_str()) {
+                    return Err(format!("next() returned {} but curr_op() is {:?}", o, cur));
+                }
+            }
+        }
+    }
+    Ok((seq, rejected))
+}
+
+pub struct ComponentIter;
+
+fn applicable(mode: IMode, op: &str) -> bool {
+    let n = dm::op_name(op);
+    let blockish = matches!(n, "Block" | "Loop" | "If" | "Else");
+    let branch = matches!(n, "Br" | "BrIf" | "BrTable" | "BrOnCast" | "BrOnCastFail" | "BrOnNull" | "BrOnNonNull");
+    let structural = matches!(n, "Block" | "Loop" | "If" | "Else" | "End" | "TryTable" | "Try" | "Catch" | "CatchAll" | "Delegate");
+    match mode {
+        IMode::SemAfter => blockish || branch,
+        IMode::BlockEntry | IMode::BlockExit | IMode::BlockAlt | IMode::EmptyBlockAlt => blockish,
+        IMode::Alt | IMode::EmptyAlt => !structural,
+        _ => true,
+    }
+}
+
+impl Driver for ComponentIter {
+    fn id(&self) -> &'static str {
+        "C26"
+    }
+    fn rule(&self) -> &'static str {
+        "tape -> 1-4 valid G-static modules (0-4 local functions each, also modules without local functions) -> component = the modules as top-level core-module sections with custom sections in between -> skip map (per module: none / first / last / trailing run / all / random subset; entries may be missing) -> (1) ComponentIterator::new(comp, skip map): the visit sequence (module, function, instruction, operator, end flag) must equal the concatenation, in module order, of the independently decoded instruction lists of the non-skipped local functions of each module; the same after reset(), also after a reset in the middle; (2) a plan of 0-8 injections (before / after / alternate / removal / semantic-after / block-entry / block-exit / block-alternate / function entry / exit, at the current location or through inject_at) on non-skipped functions is issued in one pass of the ComponentIterator and, separately, module by module in one pass of a ModuleIterator with that module's skip list over the module parsed on its own; the modules extracted from the encoded component must have the same decoded content as the separately encoded modules, the same calls must be rejected on both sides, and an encode panic must occur on both sides or on neither. Non-trivial: >=2 modules, >=1 skip entry and >=1 injection in a module other than the first. Distinct = hash(component, skip map, plan)."
+    }
+    fn tape_len(&self) -> usize {
+        4096
+    }
+    fn cases(&self, tier: Tier) -> u64 {
+        match tier {
+            Tier::Quick => 16_000,
+            Tier::Thorough => 600_000,
+        }
+    }
+    fn assumptions(&self) -> Vec<&'static str> {
+        vec![
+            "part (2) is differential: the library's module-level path is the reference for its component-level path, as the statement says; part (1) uses the independent decode",
+            "an empty iteration is observed through curr_op()/next() returning None",
+        ]
+    }
+    fn run(&self, c: &mut Case) -> Outcome {
+        let nmods = c.t.range(1, 4);
+        let mut mods: Vec<(Vec<u8>, dm::Dec)> = vec![];
+        for _ in 0..nmods {
+            let mut profile = Profile::from_tape(&mut c.t);
+            profile.gc = profile.gc && c.t.bool();
+            let mut cfg = steer_cfg(c, Kind::Static, profile);
+            cfg.max_funcs = 4;
+            cfg.max_stmts = 3;
+            let m = gen_module(&mut c.t, &cfg);
+            let bytes = m.encode();
+            if let Err(e) = dm::validate(&bytes) {
+                c.gen_invalid();
+                c.note(|| format!("GENERATOR BUG: {}\n{}", e, dm::print_wat(&bytes)));
+                return Outcome::Discard("generator produced an invalid module");
+            }
+            let d = match dm::decode(&bytes) {
+                Ok(d) => d,
+                Err(e) => return fail("harness:decode", e),
+            };
+            mods.push((bytes, d));
+        }
+        // component
+        let mut comp = wasm_encoder::Component::new();
+        for (k, (b, _)) in mods.iter().enumerate() {
+            if c.t.chance(1, 4) {
+                comp.section(&wasm_encoder::CustomSection { name: format!("between{}", k).into(), data: vec![k as u8; 3].into() });
+            }
+            comp.section(&wasm_encoder::RawSection { id: 1, data: b });
+        }
+        let comp_bytes = comp.finish();
+        // skip map
+        let mut skip_map: HashMap<ModuleID, Vec<FunctionID>> = HashMap::new();
+        let mut skips: Vec<BTreeSet<u32>> = vec![];
+        let mut any_skip = false;
+        for (k, (_, d)) in mods.iter().enumerate() {
+            let locals: Vec<u32> = (0..d.funcs.len() as u32).filter(|i| d.funcs[*i as usize].import.is_none()).collect();
+            let nl = locals.len();
+            let s: Vec<u32> = match c.t.below(8) {
+                0 | 1 => vec![],
+                2 => locals.first().copied().into_iter().collect(),
+                3 => locals.last().copied().into_iter().collect(),
+                4 => {
+                    let n = c.t.below(nl + 1);
+                    locals[nl - n..].to_vec()
+                }
+                5 => locals.clone(),
+                _ => locals.iter().copied().filter(|_| c.t.bool()).collect(),
+            };
+            let mut s = s;
+            if s.len() >= 2 && c.t.chance(1, 3) {
+                shuffle(&mut s, &mut c.t);
+                c.class("skip_list_not_ascending");
+            }
+            let sset: BTreeSet<u32> = s.iter().copied().collect();
+            c.class(&format!("shape:{}", skip_shape(&locals, &sset)));
+            if !s.is_empty() || c.t.bool() {
+                skip_map.insert(ModuleID(k as u32), s.iter().map(|f| FunctionID(*f)).collect());
+            }
+            any_skip |= !s.is_empty();
+            skips.push(sset);
+        }
+        // plan
+        let mut plan: Vec<(u32, Inj)> = vec![];
+        let n_inj = c.t.below(9);
+        let mut marker = 6000;
+        for _ in 0..n_inj {
+            let k = c.t.below(nmods);
+            let d = &mods[k].1;
+            let cand: Vec<u32> = (0..d.funcs.len() as u32).filter(|i| d.funcs[*i as usize].import.is_none() && !skips[k].contains(i)).collect();
+            if cand.is_empty() {
+                continue;
+            }
+            let f = *c.t.pick(&cand);
+            let ops = &d.funcs[f as usize].ops;
+            let mode = *c.t.pick(&[
+                IMode::Before, IMode::Before, IMode::After, IMode::After, IMode::Alt, IMode::EmptyAlt, IMode::SemAfter, IMode::BlockEntry, IMode::BlockExit, IMode::BlockAlt, IMode::EmptyBlockAlt, IMode::FuncEntry, IMode::FuncExit,
+            ]);
+            let fitting: Vec<usize> = (0..ops.len()).filter(|i| applicable(mode, &ops[*i])).collect();
+            // one time in eight anywhere (both sides must then reject the same calls)
+            let at = if !fitting.is_empty() && c.t.chance(7, 8) { *c.t.pick(&fitting) } else { c.t.below(ops.len()) };
+            if mode.is_func_level() && plan.iter().any(|(pk, i)| *pk == k as u32 && i.func == f && i.mode == mode) {
+                continue;
+            }
+            let _ = (is_open(&ops[at]), structure(ops).depth.len());
+            marker += 1;
+            let path = if c.t.bool() { Path::CompCur } else { Path::CompInjectAt };
+            let payload = if matches!(mode, IMode::EmptyAlt | IMode::EmptyBlockAlt) { vec![] } else { marker_payload(marker) };
+            plan.push((k as u32, Inj { func: f, instr: at, mode, path, payload, marker }));
+        }
+        let render_plan = |plan: &[(u32, Inj)]| plan.iter().map(|(k, i)| format!("  module {} func {} instr {} {} via {} marker {}", k, i.func, i.instr, i.mode.name(), i.path.name(), i.marker)).collect::<Vec<_>>().join("\n");
+        c.note(|| {
+            let mut s = String::new();
+            for (k, (b, _)) in mods.iter().enumerate() {
+                s.push_str(&format!("MODULE {} (skip {:?})\n{}\n", k, skips[k], dm::print_wat(b)));
+            }
+            s.push_str(&format!("SKIP MAP keys {:?}\nPLAN\n{}", { let mut v: Vec<u32> = skip_map.keys().map(|k| **k).collect(); v.sort(); v }, render_plan(&plan)));
+            s
+        });
+        let total: usize = mods.iter().map(|(_, d)| d.funcs.iter().map(|f| f.ops.len()).sum::<usize>()).sum::<usize>() + 8;
+        let mut want: Vec<CVisit> = vec![];
+        for (k, (_, d)) in mods.iter().enumerate() {
+            for (f, i, op, e) in expected_visits(d, &skips[k]) {
+                want.push((k as u32, f, i, op, e));
+            }
+        }
+        let shape_sig: String = {
+            let mut v: Vec<&str> = mods.iter().enumerate().map(|(k, (_, d))| {
+                let locals: Vec<u32> = (0..d.funcs.len() as u32).filter(|i| d.funcs[*i as usize].import.is_none()).collect();
+                skip_shape(&locals, &skips[k])
+            }).collect();
+            v.retain(|s| *s != "none_skipped");
+            v.first().copied().unwrap_or("none_skipped").to_string()
+        };
+        let mk = |stage: &str, what: String| fail(format!("{}:{}", stage, shape_sig), what);
+        // ---- (1) visiting
+        let mut comp1 = match run_lib(|| wirm::Component::parse(&comp_bytes, true)) {
+            Ok(Ok(x)) => x,
+            Ok(Err(e)) => return fail("component-parse-err", format!("{:?}", e)),
+            Err(p) => return panic_fail("component-parse", &p),
+        };
+        let partial = c.t.u16() as usize;
+        let r = run_lib(|| -> Result<(), Outcome> {
+            let mut it = wirm::iterator::component_iterator::ComponentIterator::new(&mut comp1, skip_map.clone());
+            let (a, _) = pass(&mut it, &[], None, total).map_err(|e| mk("walk", e))?;
+            if a != want {
+                return Err(mk("visit-sequence", first_diff_c(&want, &a)));
+            }
+            it.reset();
+            let (b, _) = pass(&mut it, &[], None, total).map_err(|e| mk("walk-after-reset", e))?;
+            if b != want {
+                return Err(mk("visit-sequence-after-reset", first_diff_c(&want, &b)));
+            }
+            if !want.is_empty() {
+                it.reset();
+                let k = 1 + partial % want.len();
+                let mut n = 1;
+                while n < k && it.next().is_some() {
+                    n += 1;
+                }
+                it.reset();
+                let (c2, _) = pass(&mut it, &[], None, total).map_err(|e| mk("walk-after-mid-reset", e))?;
+                if c2 != want {
+                    return Err(mk("visit-sequence-after-mid-reset", format!("reset after {} visits; {}", k, first_diff_c(&want, &c2))));
+                }
+            }
+            Ok(())
+        });
+        match r {
+            Ok(Ok(())) => {}
+            Ok(Err(o)) => return o,
+            Err(p) => return mk(&format!("panic:{}", crate::capture::mask(&p.signature(), 60)), format!("{}:{} {}", p.file, p.line, p.msg)),
+        }
+        // ---- (2) injection equivalence
+        let mut comp2 = match run_lib(|| wirm::Component::parse(&comp_bytes, true)) {
+            Ok(Ok(x)) => x,
+            _ => return fail("component-parse-err", "second parse failed"),
+        };
+        let rc = run_lib(|| {
+            let mut it = wirm::iterator::component_iterator::ComponentIterator::new(&mut comp2, skip_map.clone());
+            pass(&mut it, &plan, None, total)
+        });
+        let (_, rej_c) = match rc {
+            Ok(Ok(x)) => x,
+            Ok(Err(e)) => return mk("instrumenting-walk", e),
+            Err(p) => return mk(&format!("panic:{}", crate::capture::mask(&p.signature(), 60)), format!("{}:{} {}", p.file, p.line, p.msg)),
+        };
+        let enc_c = run_lib(|| comp2.encode());
+        // module by module
+        let mut enc_m: Vec<Result<Vec<u8>, String>> = vec![];
+        let mut rej_m: Vec<Option<String>> = vec![None; plan.len()];
+        for (k, (b, _)) in mods.iter().enumerate() {
+            let mut module = match lib_parse(b, true) {
+                Ok(m) => m,
+                Err(o) => return o,
+            };
+            let sub: Vec<(usize, (u32, Inj))> = plan.iter().enumerate().filter(|(_, (pk, _))| *pk == k as u32).map(|(i, (pk, inj))| {
+                let mut inj = inj.clone();
+                inj.path = if inj.path == Path::CompCur { Path::IterCur } else { Path::IterInjectAt };
+                (i, (*pk, inj))
+            }).collect();
+            let subplan: Vec<(u32, Inj)> = sub.iter().map(|(_, p)| p.clone()).collect();
+            let skipv: Vec<FunctionID> = skips[k].iter().map(|f| FunctionID(*f)).collect();
+            let rm = run_lib(|| {
+                let mut it = wirm::iterator::module_iterator::ModuleIterator::new(&mut module, &skipv);
+                pass(&mut it, &subplan, Some(k as u32), total)
+            });
+            match rm {
+                Ok(Ok((_, rej))) => {
+                    for (j, (i, _)) in sub.iter().enumerate() {
+                        rej_m[*i] = rej[j].clone();
+                    }
+                }
+                Ok(Err(e)) => return fail("harness:module-walk", e),
+                Err(p) => return fail("harness:module-walk-panic", format!("{}:{} {}", p.file, p.line, p.msg)),
+            }
+            enc_m.push(run_lib(|| module.encode()).map_err(|p| p.signature()));
+        }
+        for k in 0..plan.len() {
+            if rej_c[k].is_some() != rej_m[k].is_some() {
+                return fail(
+                    format!("rejection-differs:{}", plan[k].1.mode.name()),
+                    format!("injection {:?}: component iterator {:?}, module iterator {:?}", plan[k], rej_c[k], rej_m[k]),
+                );
+            }
+        }
+        let any_module_panic = enc_m.iter().find_map(|r| r.as_ref().err().cloned());
+        match (&enc_c, &any_module_panic) {
+            (Err(_), Some(_)) => return Outcome::Discard("plan makes encode panic on both sides"),
+            (Err(p), None) => return fail(format!("encode-panics-only-via-component:{}", crate::capture::mask(&p.signature(), 50)), format!("{}:{} {}", p.file, p.line, p.msg)),
+            (Ok(_), Some(s)) => return fail(format!("encode-panics-only-via-module:{}", crate::capture::mask(s, 50)), s.clone()),
+            (Ok(_), None) => {}
+        }
+        let out = enc_c.unwrap();
+        let got = extract_modules(&out);
+        if got.len() != nmods {
+            return fail("module-count", format!("encoded component has {} top-level modules, input had {}", got.len(), nmods));
+        }
+        let opts = dm::FlatOpts { by_identity: false, include_names: true, include_customs: true };
+        let mut fails = vec![];
+        for k in 0..nmods {
+            let a = match dm::decode(enc_m[k].as_ref().unwrap()) {
+                Ok(d) => d,
+                Err(_) => continue, // undecodable on the module side: compare bytes
+            };
+            let b = match dm::decode(&got[k]) {
+                Ok(d) => d,
+                Err(e) => {
+                    fails.push(Fail { sig: "component-side-undecodable".into(), detail: format!("module {}: {}", k, e) });
+                    continue;
+                }
+            };
+            let mut fa = dm::flatten(&a, &dm::Ids::trivial(&a), &opts);
+            let mut fb = dm::flatten(&b, &dm::Ids::trivial(&b), &opts);
+            // the function-exit lowering wraps the body in a block whose type is looked up by
+            // signature; with duplicate identical types in the module the index it finds is not
+            // determined (C04's subject), so block types are compared structurally
+            structural_block_types(&mut fa, &a);
+            structural_block_types(&mut fb, &b);
+            for (p, e, o) in dm::all_diffs(&fa, &fb, 8) {
+                fails.push(Fail { sig: format!("module-differs:{}", dm::path_class(&p)), detail: format!("module {} {}: via ModuleIterator {:?}, via ComponentIterator {:?}", k, p, e, o) });
+            }
+        }
+        if !fails.is_empty() {
+            return Outcome::FailMany(fails);
+        }
+        c.class(&format!("modules:{}", nmods));
+        for (_, i) in &plan {
+            c.class(&format!("mode:{}", i.mode.name()));
+        }
+        if rej_c.iter().any(|r| r.is_some()) {
+            c.class("plan_with_rejected_call");
+        }
+        if nmods >= 2 && any_skip && plan.iter().enumerate().any(|(k, (pk, _))| *pk > 0 && rej_c[k].is_none()) {
+            c.nontrivial(fnv(&comp_bytes) ^ fnv(format!("{:?}", skips).as_bytes()) ^ fnv(render_plan(&plan).as_bytes()));
+        }
+        Outcome::Pass
+    }
+}
+
+fn first_diff_c(want: &[CVisit], got: &[CVisit]) -> String {
+    for i in 0..want.len().max(got.len()) {
+        if want.get(i) != got.get(i) {
+            return format!("visit #{}: expected {:?}, iterator gave {:?} (expected {} visits, got {})", i, want.get(i), got.get(i), want.len(), got.len());
+        }
+    }
+    String::new()
+}
+
+fn structural_block_types(flat: &mut dm::Flat, d: &dm::Dec) {
+    for v in flat.values_mut() {
+        if let Some(i) = v.find("blockty: FuncType(") {
+            let start = i + "blockty: FuncType(".len();
+            let digits: String = v[start..].chars().take_while(|c| c.is_ascii_digit()).collect();
+            if let Ok(n) = digits.parse::<usize>() {
+                if let Some(t) = d.types.get(n) {
+                    let repl = format!("{}#{}{}", &v[..start], t, &v[start + digits.len()..]);
+                    *v = repl;
+                }
+            }
+        }
+    }
+}
+
+fn shuffle(v: &mut Vec<u32>, t: &mut crate::tape::Tape) {
+    for i in (1..v.len()).rev() {
+        let j = t.below(i + 1);
+        v.swap(i, j);
     }
 }
